@@ -298,13 +298,19 @@ Definition explain (ck : checker) (ev mv : list bool) : explanation :=
 
 (* ---------------------------------------------------------------- validation *)
 
-(* config::validation::validate_content_section (runs when a configuration file is loaded, before any override) *)
+(* config::validation::validate_content_section: global threshold in [0,1], global warn_at below the global
+   limit, and per rule: warn_at below the rule's limit, warn_threshold (when present) in [0,1].
+   (expires dates are also validated there; rules in this model carry no expires field.) *)
 Definition warn_at_ok (wa : option N) (max_lines : N) : bool :=
   match wa with Some w => w <? max_lines | None => true end.
 
+Definition threshold_ok (wt : option N) : bool :=
+  match wt with Some t => f64_in_unit t | None => true end.
+
+Definition rule_ok (r : rule) : bool := warn_at_ok (r_wa r) (r_max r) && threshold_ok (r_wt r).
+
 Definition validate_content (cfg : config) : bool :=
-  f64_in_unit (c_wt cfg) && warn_at_ok (c_wa cfg) (c_max cfg) &&
-  forallb (fun r => warn_at_ok (r_wa r) (r_max r)) (c_rules cfg).
+  f64_in_unit (c_wt cfg) && warn_at_ok (c_wa cfg) (c_max cfg) && forallb rule_ok (c_rules cfg).
 
 (* ---------------------------------------------------------------- CLI overrides *)
 
@@ -339,8 +345,21 @@ Definition check_checker (cfg : config) (a : cli_overrides) : checker :=
 (* the checker `explain <file>` uses: ThresholdChecker::new(config), no overrides exist *)
 Definition explain_checker (cfg : config) : checker := new_checker cfg.
 
-(* what check does with a file whose raw stats are known (None = not evaluated) *)
+(* the two commands. Both load the configuration through load_config, which validates it; check validates
+   again after apply_cli_overrides (runner.rs step 2), so an override that breaks a constraint is a
+   configuration error (exit 2) and no file is evaluated *)
+Inductive check_outcome :=
+| ConfigError
+| NotEvaluated                       (* should_process = false *)
+| Evaluated (r : check_result).
+
 Definition check_file (cfg : config) (a : cli_overrides) (ev mv : list bool) (ext : option str)
-           (stats : line_stats) : option check_result :=
-  let ck := check_checker cfg a in
-  if should_process ck ev mv ext then Some (process_for_check ck mv stats) else None.
+           (stats : line_stats) : check_outcome :=
+  if negb (validate_content cfg) then ConfigError
+  else if negb (validate_content (apply_cli_overrides cfg a)) then ConfigError
+  else
+    let ck := check_checker cfg a in
+    if should_process ck ev mv ext then Evaluated (process_for_check ck mv stats) else NotEvaluated.
+
+Definition explain_file (cfg : config) (ev mv : list bool) : option explanation :=
+  if validate_content cfg then Some (explain (explain_checker cfg) ev mv) else None.
